@@ -159,6 +159,7 @@ func (repsim) Generate(rng *Rand, prop, tier string) *Script {
 	case "C11":
 		w["rm"], w["clean"], w["mark"], w["ckpt"], w["snap"] = 10, 8, 4, 5, 16
 	case "C12":
+		w["reuse"] = 3
 		w["bad"], w["snap"], w["rm"], w["revert"], w["resize"], w["reopen"], w["mark"], w["ckpt"] = 8, 12, 6, 5, 3, 5, 4, 3
 	case "C16":
 		w["resize"], w["reopen"], w["snap"] = 8, 5, 10
@@ -202,6 +203,27 @@ func (repsim) Generate(rng *Rand, prop, tier string) *Script {
 		}
 		op := Op{K: k}
 		secs := nb * (blk / sect)
+		if k == "reuse" {
+			wr := func() {
+				b := int64(rng.Intn(int(nb)))
+				s.Ops = append(s.Ops, Op{K: "w", A: b * 8, B: 8})
+			}
+			a, b2, c := snapID+1, snapID+2, snapID+3
+			snapID += 4
+			wr()
+			s.Ops = append(s.Ops, Op{K: "snap", A: a, F: rng.Bool(45)})
+			wr()
+			s.Ops = append(s.Ops, Op{K: "snap", A: b2, F: rng.Bool(45)})
+			wr()
+			s.Ops = append(s.Ops, Op{K: "snap", A: c, F: rng.Bool(45)})
+			s.Ops = append(s.Ops, Op{K: "rm", A: 1}) // the middle one of the three
+			wr()
+			s.Ops = append(s.Ops, Op{K: "snap", A: b2, F: rng.Bool(45)}) // its name again
+			wr()
+			s.Ops = append(s.Ops, Op{K: "snap", A: snapID, F: rng.Bool(45)})
+			s.Ops = append(s.Ops, Op{K: "rm", A: 1})
+			continue
+		}
 		switch k {
 		case "w", "r", "wf", "rf":
 			op.C = int64(rng.Intn(3)) // wf: 0 EIO, 1 ENOSPC, 2 short write
@@ -253,7 +275,7 @@ func (repsim) Generate(rng *Rand, prop, tier string) *Script {
 			snapID++
 			op.A = snapID
 			op.F = rng.Bool(45)
-			if rng.Bool(6) && snapID > 1 { // duplicate / previously used name
+			if (rng.Bool(6) || (prop == "C12" && rng.Bool(14))) && snapID > 1 { // duplicate / previously used name (stale children bookkeeping after reuse)
 				op.A = int64(rng.Range(1, int(snapID)-1))
 				snapID--
 			}
@@ -1314,7 +1336,13 @@ func (rr *repRun) removeSnapshot(target, kind string) {
 		}
 		rr.drainPuncher()
 		if m.open {
-			rr.mustBeNoop("C12", "remove of protected disk "+target, before)
+			// C12's clause (a refused operation is a no-op); for head / latest / base it is C11's as well
+			// ("never accepted for deletion": a refusal that marks the disk removed has half accepted it)
+			np := "C12"
+			if rr.s.Prop == "C11" && protected {
+				np = "C11"
+			}
+			rr.mustBeNoop(np, "remove of protected disk "+target, before)
 		}
 		return
 	}
